@@ -17,7 +17,7 @@ use crate::{
     fixtures::{
         is_permutation,
         problems::TspP,
-        run::{build_perm, inst_strategy, run_observed, tpl_strategy, tsp_of, Audit, EvalKind, Inst, Kind, Phase, RunSpec, StepEv, Tpl},
+        run::{run_observed_auto, build_perm, inst_strategy, run_observed, tpl_strategy, tsp_of, Audit, EvalKind, Inst, Kind, Phase, RunSpec, StepEv, Tpl},
         state_with,
     },
 };
@@ -222,7 +222,7 @@ fn run_oracle(spec: &RunSpec, cl: &mut u64) -> Result<(), Failure> {
         Err(e) => return soft_fail(Failure::new("C19 ACO constructor rejects valid parameters", format!("{spec:?}: {e:#}"))),
     };
     let audit = Arc::new(Mutex::new(A19 { n, ants, rho, decay, bounds, min_trail_seen: f64::INFINITY, ..Default::default() }));
-    let res = run_observed(&cfg, &problem, spec.seed, EvalKind::Sequential, audit.clone());
+    let res = run_observed_auto(&cfg, &problem, spec.seed, EvalKind::Sequential, audit.clone());
     let a = audit.lock().unwrap();
     if a.shared_edge_updates > 0 {
         *cl |= 1;
